@@ -102,7 +102,7 @@ pub fn parse_gm(v: &Value) -> GmAttr {
 }
 pub fn parse_tp(v: &Value) -> Tp {
     Tp {
-        utc: v.get("utc").and_then(|x| x.as_i64()).map(|x| x as i16),
+        utc: v.get("utc").and_then(|x| x.as_i64()).filter(|x| *x != 99999).map(|x| x as i16),
         leap: gu(v, "leap", 0) as u8,
         tt: gb(v, "tt", false),
         ft: gb(v, "ft", false),
@@ -382,10 +382,23 @@ pub fn eval_form(vals: &Vals, f: &Value) -> Result<i128, String> {
             .checked_sub(eval_form(vals, &f["r"])?)
             .ok_or("overflow")?,
         "neg" => -eval_form(vals, &f["x"])?,
-        // statime divides the I96F32 by 2: exact arithmetic shift of the bit pattern, floor
-        "half" => eval_form(vals, &f["x"])?.div_euclid(2),
+        // statime divides the I96F32 by 2 (fixed-point division truncates toward zero); the property only asks
+        // for sub-nanosecond precision, so the comparison allows one unit of 2^-32 ns per halving (see halvings())
+        "half" => eval_form(vals, &f["x"])? / 2,
         _ => return Err(format!("unknown op {}", op)),
     })
+}
+/// number of halvings in a form: the tolerance (in units of 2^-32 ns) of its comparison
+pub fn halvings(f: &Value) -> i128 {
+    if f.get("v").is_some() {
+        return 0;
+    }
+    match f.get("op").and_then(|x| x.as_str()) {
+        Some("half") => 1 + halvings(&f["x"]),
+        Some("neg") => halvings(&f["x"]),
+        Some("add") | Some("sub") => halvings(&f["l"]) + halvings(&f["r"]),
+        _ => 0,
+    }
 }
 pub fn is_form(v: &Value) -> bool {
     v.is_object() && (v.get("v").is_some() || v.get("op").is_some())
@@ -1387,12 +1400,14 @@ pub fn subset_match(vals: &Vals, exp: &Value, act: &Value, path: &str) -> Option
             "ts" | "ots" => want & !0xffff_ffffi128, // whole nanoseconds
             _ => want,
         };
+        let tol = halvings(exp);
         return match act.as_str().and_then(|s| s.parse::<i128>().ok()) {
-            Some(a) if a == want => None,
+            Some(a) if (a - want).abs() <= tol => None,
             _ => Some(format!("{} (want {} got {})", path, want, act)),
         };
     }
     match (exp, act) {
+        (Value::Object(e), Value::Null) if e.get("none").is_some() => None,
         (Value::Object(e), Value::Object(a)) => {
             for (k, v) in e {
                 match a.get(k) {
@@ -1427,8 +1442,9 @@ pub fn subset_match(vals: &Vals, exp: &Value, act: &Value, path: &str) -> Option
         // TLC prints the empty sequence and the empty record alike
         (Value::Array(e), Value::Object(a)) if e.is_empty() && a.is_empty() => None,
         (Value::Object(e), Value::Array(a)) if e.is_empty() && a.is_empty() => None,
-        // a model string "null" stands for an absent optional
+        // a model string "null" / record [none |-> TRUE] / the NoUtc sentinel stand for an absent optional
         (Value::String(s), Value::Null) if s == "null" => None,
+        (Value::Number(n), Value::Null) if n.as_i64() == Some(99999) => None,
         _ => {
             if exp == act {
                 None
